@@ -248,7 +248,7 @@ func (h *indexedBinary[K, V]) ContainsIndex(i int) bool {
 
 // ContainsKey returns true if a given key is on the heap.
 func (h *indexedBinary[K, V]) ContainsKey(key K) bool {
-	for i := 0; i < h.n; i++ {
+	for i := 0; i < len(h.kvs); i++ {
 		if h.kvs[i] != nil && h.cmpKey(h.kvs[i].Key, key) == 0 {
 			return true
 		}
@@ -259,7 +259,7 @@ func (h *indexedBinary[K, V]) ContainsKey(key K) bool {
 
 // ContainsValue returns true if a given value is on the heap.
 func (h *indexedBinary[K, V]) ContainsValue(val V) bool {
-	for i := 0; i < h.n; i++ {
+	for i := 0; i < len(h.kvs); i++ {
 		if h.kvs[i] != nil && h.eqVal(h.kvs[i].Val, val) {
 			return true
 		}
